@@ -60,6 +60,23 @@ def run_program(sg, hist, junk=0):
             yv = np.arange(10)
             tr, te, va = split_dataset(X, yv, test_split=0.25, val_split=0.25, shuffle=True)
             out.append(h(tr[0], tr[1], te[0], te[1], va[0], va[1]))
+        elif api == "tied":
+            # weight tying + an order-sensitive consumer of parameters(): every parameter is re-initialised in the
+            # order parameters() reports them, then two optimisation steps
+            enc, dec = nn.Linear(3, 3), nn.Linear(3, 3)
+            dec.weight = enc.weight
+            model = nn.Sequential(enc, nn.Tanh(), dec)
+            for p_ in model.parameters():
+                nn.init.normal_(p_, 0.0, 0.5)
+            opt = sg.optim.SGD(model.parameters(), lr=0.1, momentum=0.5)
+            data = sg.Tensor(np.linspace(-1, 1, 12, dtype=np.float32).reshape(4, 3))
+            for _ in range(2):
+                opt.zero_grad()
+                loss = nn.MSELoss()(model(data), data)
+                loss.backward()
+                opt.step()
+            ps = model.parameters()
+            out.append(h(*([p_.data for p_ in ps] + [np.array(len(ps))])))
         elif api == "train":
             model = nn.Sequential(nn.Linear(4, 5), nn.BatchNorm1d(5), nn.ReLU(), nn.Dropout(0.3), nn.Linear(5, 3))
             opt = sg.optim.Adam(model.parameters(), lr=0.05)
